@@ -143,7 +143,7 @@ are tied to the implementation by the correspondence run only. -/
 type in the fragment, every value the type can hold within the library's limits (`conf`), any nesting
 budget `d` the value fits in, and any fuel the model is given beyond the stated minimum. -/
 theorem typed_decode_encode (ok : CertOracle) (g : Nat) (s : Schema) (v : Val) (b r : Bytes) (d f : Nat)
-    (hs : s.inFragment = true) (henc : encodeS g s v = some b) (hconf : conf g d s v = true)
+    (hs : s.inFragment = true) (henc : encodeS g s v = some b) (hconf : conf ok g d s v = true)
     (hlen : b.length < 18446744073709551616) (hf : 2 * b.length + 1 + s.ptrDepth ≤ f) :
     decodeS ok f d s (b ++ r) = some (v, r) :=
   decodeS_encodeS ok g s v b r d f hs henc hconf hlen hf
@@ -151,7 +151,7 @@ theorem typed_decode_encode (ok : CertOracle) (g : Nat) (s : Schema) (v : Val) (
 /-- `cbor.Unmarshal(cbor.Marshal(v), &w)` gives `w = v` on the fragment. -/
 theorem typed_unmarshal_marshal (ok : CertOracle) (s : Schema) (v : Val) (b : Bytes)
     (hs : s.inFragment = true) (hp : s.ptrDepth ≤ 63) (henc : marshalS s v = some b)
-    (hconf : conf 10000 maxDepth s v = true) (hlen : b.length < 18446744073709551616) :
+    (hconf : conf ok 10000 maxDepth s v = true) (hlen : b.length < 18446744073709551616) :
     unmarshalS ok s b = some v :=
   unmarshalS_marshalS ok s v b hs hp henc hconf hlen
 
@@ -163,19 +163,19 @@ theorem wire_types_in_fragment :
       | some s => s.inFragment && decide (s.ptrDepth ≤ 63)
       | none => false) =
     ["RawBytes", "int64", "uint8", "uint16", "int8", "int16", "int32", "int", "uint32", "uint64", "bytes", "string",
-     "fixed16", "Bstr[int]", "ByteWrap[bytes]", "ByteWrap[Hash]", "Tag[Raw]", "Hash", "PublicKey", "RvInstruction",
-     "RvInfo", "RvTO2Addr", "To1d", "ErrorMessage", "Sign1Tag[Raw]", "Sign1Tag[To1d]", "Sign1Tag[OVHProof]",
-     "Sign1Tag[DeviceSetup]", "Mac0Tag", "Encrypt0Tag", "Encrypt0", "Mac0[Encrypt0]", "VoucherHeader",
-     "DeviceCredential", "TO2.HelloDevice", "TO2.OVHProof", "TO2.DeviceSetup", "TO2.DeviceServiceInfoReady",
-     "TO2.OwnerServiceInfoReady", "TO2.DeviceServiceInfo", "TO2.OwnerServiceInfo", "TO2.Done", "TO2.Done2",
-     "DI.SetCredentials", "TO0.HelloAck", "TO0.AcceptOwner", "TO1.HelloRV", "TO1.HelloRVAck", "SigInfo",
-     "serviceinfo.KV", "TO2.GetOVNextEntry", "DI.SetHmac"] := by decide +kernel
+     "fixed16", "Bstr[int]", "ByteWrap[bytes]", "ByteWrap[Hash]", "Tag[Raw]", "Timestamp", "X509Certificate",
+     "X5Chain", "Hash", "PublicKey", "RvInstruction", "RvInfo", "RvTO2Addr", "To1d", "ErrorMessage", "IntOrStr",
+     "Sign1Tag[Raw]", "Sign1Tag[To1d]", "Sign1Tag[OVHProof]", "Sign1Tag[DeviceSetup]", "Mac0Tag", "Encrypt0Tag",
+     "Encrypt0", "Mac0[Encrypt0]", "VoucherHeader", "DeviceCredential", "TO2.HelloDevice", "TO2.OVHProof",
+     "TO2.DeviceSetup", "TO2.DeviceServiceInfoReady", "TO2.OwnerServiceInfoReady", "TO2.DeviceServiceInfo",
+     "TO2.OwnerServiceInfo", "TO2.Done", "TO2.Done2", "DI.SetCredentials", "TO0.HelloAck", "TO0.AcceptOwner",
+     "TO1.HelloRV", "TO1.HelloRVAck", "SigInfo", "serviceinfo.KV", "TO2.GetOVNextEntry", "DI.SetHmac"] := by decide +kernel
 
 /-- Non-vacuity: a rendezvous redirect (`protocol.To1d`: addresses with nil and non-nil pointers, a hash)
 conforms, marshals, and is read back. -/
 example :
     let v : Val := .strct [.list [.strct [.nilp, .ref (.text [0x61]), .nat 8443, .nat 2]], .strct [.int (-16), .bytes [1, 2, 3]]]
-    Fdo.Gen.Schemas.s_To1d.inFragment = true ∧ conf 10000 maxDepth Fdo.Gen.Schemas.s_To1d v = true
+    Fdo.Gen.Schemas.s_To1d.inFragment = true ∧ conf (fun _ => true) 10000 maxDepth Fdo.Gen.Schemas.s_To1d v = true
       ∧ (marshalS Fdo.Gen.Schemas.s_To1d v).isSome = true := by decide +kernel
 
 end Fdo.Props.C11
